@@ -57,7 +57,27 @@ def check_graph(ctx):
         ok = any(isinstance(c.func, ast.Attribute) and c.func.attr == 'add_edges_from' and c.args and
                  U(c.args[0]).replace(' ', '') in ('itertools.combinations(%s,2)' % cl,) for c in calls_in(loops[0])) and \
             not any(isinstance(n, (ast.If, ast.Continue, ast.Break)) for n in ast.walk(loops[0]))
-    ctx.ob('graph-from-cliques', fi, loops[0] if loops else fi.node, ok, 'every pair of attributes of every clique is joined by an edge (no filter)')
+    where = loops[0] if loops else fi.node
+    if not loops:
+        # the same edges in one call: add_edges_from(e for cl in self.cliques for e in itertools.combinations(cl, 2))
+        from ..srcmodel import alpha_text, alpha_of
+        from ..normalise import Defs, expand
+        for c in calls_in(fi.node):
+            if isinstance(c.func, ast.Attribute) and c.func.attr == 'add_edges_from' and len(c.args) == 1:
+                a0 = expand(c.args[0], Defs(fi.body), comps=True)
+                while isinstance(a0, ast.Call) and isinstance(a0.func, ast.Name) and a0.func.id in ('list', 'tuple', 'set') and len(a0.args) == 1:
+                    a0 = a0.args[0]
+                if isinstance(a0, (ast.GeneratorExp, ast.ListComp, ast.SetComp)):
+                    where = c
+                    g_ = ast.GeneratorExp(elt=a0.elt, generators=a0.generators)
+                    ok = alpha_text(g_) in (alpha_of('(e for cl in self.cliques for e in itertools.combinations(cl, 2))'),
+                                            alpha_of('((a, b) for cl in self.cliques for a, b in itertools.combinations(cl, 2))'))
+                elif isinstance(a0, ast.Call) and U(a0.func) in ('itertools.chain.from_iterable', 'chain.from_iterable') and len(a0.args) == 1 \
+                        and isinstance(a0.args[0], (ast.GeneratorExp, ast.ListComp)):
+                    where = c
+                    ok = alpha_text(ast.GeneratorExp(elt=a0.args[0].elt, generators=a0.args[0].generators)) == \
+                        alpha_of('(itertools.combinations(cl, 2) for cl in self.cliques)')
+    ctx.ob('graph-from-cliques', fi, where, ok, 'every pair of attributes of every clique is joined by an edge (no filter)')
     init = ctx.repo.nfunc(JT, 'JunctionTree.__init__')
     st = {U(s.targets[0]): U(s.value) for s in walk_shallow(init.node) if isinstance(s, ast.Assign) and len(s.targets) == 1}
     ok, why = stored_cliques(init)
